@@ -152,10 +152,12 @@ let str_outcome (f : 'a -> string) (o : 'a outcome) = match o with
   | Crashed -> "CRASH"
   | Blocked -> "BLOCKED"
 
-type cop = { run_s : reply list -> msg list * string; run_b : vsign list -> vsign list * string }
+type cop = { run_s : reply list -> msg list * string; run_b : vsign list -> vsign list * string;
+             run_w : wire -> (wire * string) option }
 let mk (p : 'a prog) (f : 'a -> string) : cop =
   { run_s = (fun sc -> let (tr, o) = run_script p sc in (tr, str_outcome f o));
-    run_b = (fun b -> let (b', o) = run_bus p b in (b', str_outcome f o)) }
+    run_b = (fun b -> let (b', o) = run_bus p b in (b', str_outcome f o));
+    run_w = (fun w -> match run_wire p w with None -> None | Some (w', o) -> Some (w', str_outcome f o)) }
 let unit_s () = ""
 let style_s st = "." ^ str_style st
 
@@ -175,6 +177,149 @@ let rec parse_signs k l =
     match l with
     | a :: st :: rest -> let (ss, r) = parse_signs (k - 1) rest in (vinit (num a) (style_of_str st) :: ss, r)
     | _ -> failwith "bad signs"
+
+
+(* ---------- I/O level cases ---------- *)
+let rd_ev_of_str (s : string) : rd_ev =
+  match s.[0] with
+  | 'D' -> RData (num (String.sub s 1 (String.length s - 1)))
+  | 'I' -> RIntr
+  | 'F' -> RFail
+  | _ -> failwith ("bad rd_ev " ^ s)
+let wr_ev_of_str (s : string) : wr_ev =
+  match s.[0] with
+  | 'A' -> WAccept (num (String.sub s 1 (String.length s - 1)))
+  | 'I' -> WIntr
+  | 'Z' -> WZero
+  | 'F' -> WFail
+  | _ -> failwith ("bad wr_ev " ^ s)
+let str_rerr = function RIo -> "ER IO" | RFrame e -> str_ferr e
+
+let bauds = [| Baud110; Baud300; Baud600; Baud1200; Baud2400; Baud4800; Baud9600; Baud19200;
+               Baud38400; Baud57600; Baud115200 |]
+let baud_of_str s = if s.[0] = 'O' then BaudOther (num (String.sub s 1 (String.length s - 1)))
+  else bauds.(int_of_string s)
+let str_baud b = match b with
+  | BaudOther n -> "O" ^ pn n
+  | _ -> let r = ref "?" in Array.iteri (fun i x -> if x = b then r := string_of_int i) bauds; !r
+let csize_of_str = function "5" -> Bits5 | "6" -> Bits6 | "7" -> Bits7 | "8" -> Bits8 | _ -> failwith "csize"
+let str_csize = function Bits5 -> "5" | Bits6 -> "6" | Bits7 -> "7" | Bits8 -> "8"
+let parity_of_str = function "N" -> ParityNone | "O" -> ParityOdd | "E" -> ParityEven | _ -> failwith "parity"
+let str_parity = function ParityNone -> "N" | ParityOdd -> "O" | ParityEven -> "E"
+let stop_of_str = function "1" -> Stop1 | "2" -> Stop2 | _ -> failwith "stop"
+let str_stop = function Stop1 -> "1" | Stop2 -> "2"
+let flow_of_str = function "N" -> FlowNone | "S" -> FlowSoftware | "H" -> FlowHardware | _ -> failwith "flow"
+let str_flow = function FlowNone -> "N" | FlowSoftware -> "S" | FlowHardware -> "H"
+let fail_of_str = function "none" -> FailNone | "read" -> FailRead | "baud" -> FailSetBaud
+                           | "write" -> FailWrite | "timeout" -> FailTimeout | _ -> failwith "fail"
+let str_fail = function FailNone -> "none" | FailRead -> "read" | FailSetBaud -> "baud"
+                        | FailWrite -> "write" | FailTimeout -> "timeout"
+let str_settings (s : settings) = Printf.sprintf "%s %s %s %s %s" (str_baud s.s_baud) (str_csize s.s_csize)
+    (str_parity s.s_parity) (str_stop s.s_stop) (str_flow s.s_flow)
+
+let handle_io (toks : string list) : string =
+  match toks with
+  | "RD" :: k :: content :: sched ->
+    let r = ref { r_content = bytes_of_hex content; r_sched = List.map rd_ev_of_str sched } in
+    let outs = ref [] in
+    for _ = 1 to int_of_string k do
+      match frame_read !r with
+      | None -> outs := "FUEL" :: !outs
+      | Some (res, r') -> r := r';
+        outs := (match res with Ok f -> "OK " ^ str_frame f | Err e -> str_rerr e) :: !outs
+    done;
+    Printf.sprintf "%s | %s" (String.concat " ; " (List.rev !outs)) (hex_of_bytes !r.r_content)
+  | "WR" :: a :: t :: d :: sched ->
+    let f = { f_addr = num a; f_type = num t; f_data = bytes_of_hex d } in
+    (match frame_write f { w_out = []; w_sched = List.map wr_ev_of_str sched } with
+     | None -> "FUEL"
+     | Some (res, w') -> Printf.sprintf "%s | %s" (match res with Ok _ -> "OK" | Err e -> str_rerr e) (hex_of_bytes w'.w_out))
+  | "SB" :: m :: tape :: rest | "TM" :: m :: tape :: rest ->
+    let (rs, ws) = split_at "/" rest in
+    let p = { pt_in = { r_content = bytes_of_hex tape; r_sched = List.map rd_ev_of_str rs };
+              pt_out = { w_out = []; w_sched = List.map wr_ev_of_str ws } } in
+    (match serial_process (msg_of_str m) p with
+     | None -> "FUEL"
+     | Some ((res, p'), evs) ->
+       if List.hd toks = "TM" then begin
+         (* sleep placement: 30 right after the write, 100 right after the read *)
+         let rec place l = match l with
+           | EvWrite _ :: EvSleep ms :: t -> ("S" ^ pn ms ^ "-after-write") :: place t
+           | EvRead _ :: EvSleep ms :: t -> ("S" ^ pn ms ^ "-after-read") :: place t
+           | EvSleep ms :: t -> ("S" ^ pn ms ^ "-elsewhere") :: place t
+           | _ :: t -> place t
+           | [] -> [] in
+         let pl = place evs in
+         Printf.sprintf "send=%d recv=%d" (if List.mem "S30-after-write" pl then 1 else 0)
+           (if List.mem "S100-after-read" pl then 1 else 0)
+         ^ (if List.exists (fun x -> x <> "S30-after-write" && x <> "S100-after-read") pl then " other" else "")
+       end else
+         Printf.sprintf "%s | %s | %s"
+           (match res with Ok r -> "OK " ^ str_omsg r | Err e -> str_rerr e)
+           (hex_of_bytes p'.pt_out.w_out) (hex_of_bytes p'.pt_in.r_content))
+  | "OD" :: k :: rest ->
+    let (signs, rest) = parse_signs (int_of_string k) rest in
+    let (prior, rest) = split_at "|" rest in
+    let (input, nsteps, wsched) = match rest with
+      | i :: n :: ws -> (i, int_of_string n, ws) | _ -> failwith "bad OD" in
+    let b = ref signs in
+    let dead = ref false in
+    List.iter (fun m -> if not !dead then
+                  match bus_step !b (msg_of_str m) with
+                  | None -> dead := true
+                  | Some (b', _) -> b := b') prior;
+    if !dead then "PANIC-PRIOR" else begin
+      let p = ref { pt_in = { r_content = bytes_of_hex input; r_sched = [] };
+                    pt_out = { w_out = []; w_sched = List.map wr_ev_of_str wsched } } in
+      let outs = ref [] in
+      for _ = 1 to nsteps do
+        match odk_process !p !b with
+        | None -> outs := "FUEL" :: !outs
+        | Some (((res, p'), b'), fwd) ->
+          p := p'; b := b';
+          let fw = match fwd with None -> "-" | Some m -> str_msg m in
+          outs := ((match res with Ok _ -> "OK" | Err (OComm e) -> "COMM " ^ str_rerr e | Err OPanic -> "PANIC") ^ " fwd=" ^ fw) :: !outs
+      done;
+      Printf.sprintf "%s | %s | %s | %s" (String.concat " ; " (List.rev !outs))
+        (hex_of_bytes !p.pt_out.w_out) (hex_of_bytes !p.pt_in.r_content)
+        (String.concat "/" (List.map obs !b))
+    end
+  | "WB" :: k :: rest ->
+    let (signs, rest) = parse_signs (int_of_string k) rest in
+    let (prior, ops) = split_at "|" rest in
+    let b = ref signs in
+    let dead = ref false in
+    List.iter (fun m -> if not !dead then
+                  match bus_step !b (msg_of_str m) with
+                  | None -> dead := true
+                  | Some (b', _) -> b := b') prior;
+    if !dead then "PANIC-PRIOR" else begin
+      let w = ref { wr_bus = !b; wr_inbox = [] } in
+      let out = Buffer.create 256 in
+      List.iter (fun o ->
+          let oc = (cop_of_str o).run_w !w in
+          (match oc with
+           | None -> Buffer.add_string out "FUEL"
+           | Some (w', s) -> w := w'; Buffer.add_string out s);
+          List.iter (fun s -> Buffer.add_string out ("/" ^ obs s)) !w.wr_bus;
+          Buffer.add_char out ' ') ops;
+      Printf.sprintf "%s# %s # inbox=%s" (Buffer.contents out)
+        (String.concat ";" (List.map (fun s -> str_pages s.v_pages) !w.wr_bus)) (hex_of_bytes !w.wr_inbox)
+    end
+  | ["PT"; baud; cs; par; stop; flow; fail; ctor] ->
+    let p = { sp_settings = { s_baud = baud_of_str baud; s_csize = csize_of_str cs; s_parity = parity_of_str par;
+                              s_stop = stop_of_str stop; s_flow = flow_of_str flow };
+              sp_timeout = None; sp_fail = fail_of_str fail } in
+    let r = match String.split_on_char '.' ctor with
+      | ["CFG"; ms] -> configure_port p (num ms)
+      | ["BUS"] -> serial_bus_try_new p
+      | ["ODK"] -> odk_try_new p
+      | _ -> failwith "bad ctor" in
+    (match r with
+     | Ok p' -> Printf.sprintf "OK %s %s" (str_settings p'.sp_settings)
+                  (match p'.sp_timeout with None -> "-" | Some t -> pn t)
+     | Err f -> "ER " ^ str_fail f)
+  | _ -> "BADCASE"
 
 let handle (line : string) : string =
   match String.split_on_char ' ' line with
@@ -297,7 +442,7 @@ let handle (line : string) : string =
       Printf.sprintf "%s# %s" (Buffer.contents out)
         (String.concat ";" (List.map (fun s -> str_pages s.v_pages) !b))
     end
-  | _ -> "BADCASE"
+  | toks -> handle_io toks
 
 let () =
   try
